@@ -112,6 +112,12 @@ static int compare_strings(const unsigned char *string1, const unsigned char *st
 static cJSON_bool compare_double(double a, double b)
 {
     double maxVal = fabs(a) > fabs(b) ? fabs(a) : fabs(b);
+    if (maxVal > DBL_MAX)
+    {
+        /* an infinite operand would make the tolerance infinite as well and equal to every number:
+         * infinity only equals the same infinity */
+        return (a <= b) && (a >= b);
+    }
     return (fabs(a - b) <= maxVal * DBL_EPSILON);
 }
 
